@@ -52,6 +52,7 @@ Definition get_promotable (L : txlist) : list tx :=
        end.
 
 Definition max_nonce (L : txlist) : N := fold_left N.max (nonces L) 0.
+Definition min_nonce (L : txlist) : N := fold_left N.min (nonces L) (W64 - 1).
 
 Definition demote (target : N) (ps : list N) : list N := sortN (filter (fun n => n <? target) ps).
 
@@ -64,9 +65,11 @@ Definition list_remove (target : N) (L : txlist) : txlist * option N :=
      Some (tid ex))
   end.
 
+(* a new lower nonce demotes the processables above it: processables stay the sender's lowest nonces *)
 Definition list_insert (t : tx) (processable : bool) (L : txlist) : txlist :=
+  let ps := demote (tnonce t) (procs L) in
   mkL (aset (tnonce t) t (txs L)) (nonces L ++ [tnonce t])
-      (if processable && (match procs L with [] => true | _ => false end) then procs L ++ [tnonce t] else procs L).
+      (if processable && (match ps with [] => true | _ => false end) then ps ++ [tnonce t] else ps).
 
 (* Add: (list', ok, id removed) *)
 Definition list_add (max_size : nat) (min_diff : N) (t : tx) (processable : bool) (L : txlist)
@@ -93,5 +96,6 @@ Fixpoint consecutive_b (l : list N) : bool :=
 Definition list_promote (ts : list tx) (L : txlist) : txlist * bool :=
   if forallb (fun t => match afind (tnonce t) (txs L) with Some ex => tid ex =? tid t | None => false end) ts
   then let u := sortN (nodup N.eq_dec (procs L ++ map tnonce ts)) in
-       if consecutive_b u then (mkL (txs L) (nonces L) u, true) else (L, false)
+       if consecutive_b u && (match u with [] => true | x :: _ => x =? min_nonce L end)
+       then (mkL (txs L) (nonces L) u, true) else (L, false)
   else (L, false).
